@@ -31,8 +31,40 @@ def gen_input(rng, rs, maxlen=60, nul=True, high=True):
     alpha += [c for c in seen if c < rs.csize and (nul or c != 0)]
     n = rng.choice([0, 1, 2, 5, 10, 20, 40, maxlen])
     out = []
+
+    def sample(p, depth=0):
+        """a string that probably matches `p` (classes are approximated by the alphabet)"""
+        k = p[0]
+        if k == 'chr':
+            return [p[1]]
+        if k == 'str':
+            return list(p[1])
+        if k == 'cat':
+            return sample(p[1], depth) + sample(p[2], depth)
+        if k == 'alt':
+            return sample(rng.choice([p[1], p[2]]), depth)
+        if k == 'star':
+            return sum((sample(p[1], depth + 1) for _ in range(rng.choice([0, 1, 2]))), [])
+        if k == 'plus':
+            return sum((sample(p[1], depth + 1) for _ in range(rng.choice([1, 2, 3]))), [])
+        if k == 'opt':
+            return sample(p[1], depth) if rng.random() < 0.5 else []
+        if k == 'rep':
+            lo = p[2] if len(p) > 2 and isinstance(p[2], int) else 1
+            return sum((sample(p[1], depth + 1) for _ in range(min(lo + rng.choice([0, 1]), 4))), [])
+        if k == 'grp':
+            return sample(p[5], depth)
+        if k == 'ref':
+            return sample(p[2], depth)
+        return [rng.choice(alpha)]
     while len(out) < n:
-        if rng.random() < 0.2 and out:
+        if rng.random() < 0.25 and rs.rules:
+            # most of a string some rule matches, then something else: the scanner has to back up
+            w = sample(rng.choice(rs.rules)['head'])[:12]
+            if len(w) > 1 and rng.random() < 0.6:
+                w = w[:rng.randrange(1, len(w))]
+            out += w
+        elif rng.random() < 0.2 and out:
             # repeat a chunk: long runs make long tokens
             k = rng.randrange(1, 6)
             out += out[-k:] * rng.randrange(1, 4)
